@@ -143,7 +143,7 @@ def obligations(tier):
     if tier == 'quick':
         CONFIGS = [(0, True, 0), (0, False, 1), (0, True, 1), (1, True, 2), (1, False, 0), (2, True, 0), (2, False, 0), (3, True, 0), (4, True, 0), (4, False, 0), (5, True, 0)]
         BASIS = [5]
-        CONFIGS2 = [(0, True, 1), (1, False, 0), (4, True, 0)]
+        CONFIGS2 = [(0, True, 1), (0, True, 0), (1, False, 0), (4, True, 0)]
     else:
         CONFIGS = [(0, sp, k) for sp in (True, False) for k in (0, 1, 2)] + [(1, sp, k) for sp in (True, False) for k in (0, 2)] + [(2, sp, 0) for sp in (True, False)] + [(3, True, 0), (5, True, 0)] + [(4, sp, 0) for sp in (True, False)]
         BASIS = list(range(8))
@@ -230,6 +230,45 @@ def obligations(tier):
                 cx.close(got, exp, label='cirq.final_state_vector')
 
         obs.append(Obligation(f'simulate{nops}.{first}' + (f'.{second[0]}' if second else ''), body, twin=lambda cx, b=body: b(cx, wrong=True), opts={'weight': 10, 'max_paths': 200000}, desc=f'Simulator.simulate / simulate_moment_steps (split_untangled_states on/off, permuted qubit order), Circuit.final_state_vector, cirq.final_state_vector, DensityMatrixSimulator on every {nops}-op circuit starting with {first}; initial state = every basis index or a fully SYMBOLIC state vector'))
+    # ---- parameter sweeps: every point of simulate_sweep equals the simulation of the resolved circuit -------------------
+    import sympy
+
+    SYM = sympy.Symbol('a')
+
+    def sweep_shapes(q):
+        # (operations using the symbol, oracle steps as a function of its value)
+        return [
+            ([cirq.H(q[0]), cirq.CNOT(q[0], q[1]), cirq.X(q[0]) ** SYM, cirq.SWAP(q[0], q[1])], lambda v: [(D.H(1.0), [0]), (D.CX(1.0), [0, 1]), (D.X(v), [0]), (D.SWAP(1.0), [0, 1])]),
+            ([cirq.X(q[1]) ** SYM, cirq.CNOT(q[1], q[2]), cirq.SWAP(q[1], q[2]), cirq.H(q[2])], lambda v: [(D.X(v), [1]), (D.CX(1.0), [1, 2]), (D.SWAP(1.0), [1, 2]), (D.H(1.0), [2])]),
+            ([cirq.H(q[0]), cirq.CNOT(q[0], q[2]), cirq.Z(q[2]) ** SYM, cirq.SWAP(q[2], q[0]), cirq.CNOT(q[0], q[1])], lambda v: [(D.H(1.0), [0]), (D.CX(1.0), [0, 2]), (D.Z(v), [2]), (D.SWAP(1.0), [2, 0]), (D.CX(1.0), [0, 1])]),
+            ([cirq.H(q[0]), cirq.CZ(q[0], q[1]) ** SYM, cirq.ISWAP(q[0], q[1]), cirq.SWAP(q[1], q[2])], lambda v: [(D.H(1.0), [0]), (D.CZ(v), [0, 1]), (D.ISWAP(1.0), [0, 1]), (D.SWAP(1.0), [1, 2])]),
+        ]
+
+    def sweep_body(cx, wrong=False):
+        q = cirq.LineQubit.range(N)
+        shapes = sweep_shapes(q)
+        ops, steps_of = shapes[cx.choose('shape', len(shapes))]
+        v1 = cx.real('a1', -BOX, BOX)
+        v2 = cx.real('a2', -BOX, BOX)
+        simk = cx.choose('simulator', 2)
+        split = bool(cx.choose('split', 2))
+        b = [0, 5][cx.choose('basis', 2)]
+        circuit = cirq.Circuit(ops)
+        sim = (cirq.Simulator if simk == 0 else cirq.DensityMatrixSimulator)(dtype=np.complex128, split_untangled_states=split)
+        results = sim.simulate_sweep(circuit, params=[cirq.ParamResolver({'a': v1}), cirq.ParamResolver({'a': v2})], qubit_order=q, initial_state=b)
+        cx.check(len(results) == 2, label='simulate_sweep: one result per resolver')
+        for i, v in enumerate((v1, v2)):
+            st = steps_of(v)
+            if wrong and i == 1:
+                st = wrong_steps(st)
+            exp = oracle_state(st, basis_tensor(N, b)).reshape(-1)
+            if simk == 0:
+                cx.close(results[i].final_state_vector, exp, label=f'Simulator.simulate_sweep point {i} split={split}')
+            else:
+                cx.close(results[i].final_density_matrix, _outer(exp), label=f'DensityMatrixSimulator.simulate_sweep point {i} split={split}')
+
+    obs.append(Obligation('simulate_sweep', sweep_body, twin=lambda cx: sweep_body(cx, wrong=True), opts={'weight': 8}, desc='Simulator / DensityMatrixSimulator.simulate_sweep over TWO resolvers with symbolic values of one symbol, 4 circuit shapes (unparameterized prefix + parameterized suffix with SWAP / ISWAP / CNOT on entangled qubits), split on/off, two basis states: every sweep point equals the ordered product of the documented matrices at its own parameter value'))
+
     # ---- ProductState initial states: expressed in the SIMULATION's qubit order ---------------------------------------
     KETS = [('KET_ZERO', [1, 0]), ('KET_ONE', [0, 1]), ('KET_PLUS', [R2, R2]), ('KET_MINUS', [R2, -R2]), ('KET_IMAG', [R2, 1j * R2]), ('KET_MINUS_IMAG', [R2, -1j * R2])]
 
